@@ -7,4 +7,4 @@ CONSTANTS
   ForgedKinds <- AllKinds
   MaxForged = 1
   MaxDup = 1
-INVARIANTS TypeOK HistoryClean TransitionSound ConsumedClean EqualKeys KeyFromOperating MisbehavedIsExcluded OperatingNeverFail IntrudersNeverJoin
+INVARIANTS TypeOK HistoryClean TransitionSound ConsumedClean EqualKeys KeyFromOperating MisbehavedIsExcluded OperatingNeverFail IntrudersNeverJoin IntruderFailsAtRoundThree
